@@ -345,6 +345,8 @@ class Gen(object):
             return ["lit", rng.choice(["1", "abc", "2012", "", "0A", "x y", "007", "+5", " 3 ", "ex:x", "o:b", "x"]),
                     self.datatype_spec(ch, u, l), None]
         if k == "litn":
+            if rng.random() < 0.06:
+                return ["lit", rng.choice(pools.UNPYTHONABLE_DATETIMES), ["qn", "xsd", pools.XSD_URI, "dateTime"], None]
             t, lex, _ = rng.choice(pools.NATIVE_LITERALS)
             return ["lit", lex, ["qn", "xsd", pools.XSD_URI, t], None]
         raise ValueError(k)
